@@ -66,7 +66,7 @@ def secrets(case_no, share_id, k):
     return h, hashlib.sha256(h).digest()
 
 
-def run_case(case_no, case, now, workdir, ft):
+def run_case(case_no, case, now, workdir, ft, shift=0):
     cfg = case["cfg"]
     basedir = tempfile.mkdtemp(prefix="exp", dir=workdir)
     config = config_from_string(basedir, "client.port", cfg_text(cfg), _valid_config=client_mod._valid_config())
@@ -132,8 +132,31 @@ def run_case(case_no, case, now, workdir, ft):
         if os.path.exists(p):
             sf = ShareFile(p) if typ == "immutable" else MutableShareFile(p)
             survivors.append({"id": sid, "type": typ, "leases": sorted(int(l.get_grant_renew_time_time()) for l in sf.get_leases())})
+    # a second cycle `shift` later, on the same directory; for every other case after a restart of the server
+    second = {"crash": "", "survivors": [], "restarted": case_no % 2 == 1, "finished_cycle": -1}
+    if shift and not crash:
+        try:
+            if second["restarted"]:
+                ss.disownServiceParent() if ss.parent else None
+                ss = client_mod._Client.get_anonymous_storage_server(FakeClient(config))
+                lc = ss.lease_checker
+            for dc in vr.getDelayedCalls():
+                dc.cancel()
+            ft.now = float(now + shift)
+            vr.rightNow = float(now + shift)
+            lc.start_slice()
+            second["finished_cycle"] = lc.state["last-cycle-finished"]
+        except Exception as e:
+            import traceback
+            second["crash"] = "%s: %s @ %s" % (type(e).__name__, str(e)[:160], traceback.format_exc().strip().splitlines()[-3].strip()[:160])
+        for sid, (p, typ) in sorted(paths.items()):
+            if os.path.exists(p):
+                sf = ShareFile(p) if typ == "immutable" else MutableShareFile(p)
+                second["survivors"].append({"id": sid, "type": typ, "leases": sorted(int(l.get_grant_renew_time_time()) for l in sf.get_leases())})
+    for dc in vr.getDelayedCalls():
+        dc.cancel()
     shutil.rmtree(basedir, ignore_errors=True)
-    return {"built": built, "finished_cycle": finished, "survivors": survivors, "crash": crash,
+    return {"built": built, "finished_cycle": finished, "survivors": survivors, "crash": crash, "second": second,
             "examined": rec.get("examined-shares"), "configured": rec.get("configured-shares"), "actual": rec.get("actual-shares"),
             "corrupt": len(st.get("cycle-to-date", {}).get("corrupt-shares", []))}
 
@@ -152,7 +175,7 @@ def main():
     out = []
     try:
         for n, case in enumerate(spec["cases"]):
-            out.append(run_case(n, case, spec["now"], work, ft))
+            out.append(run_case(n, case, spec["now"], work, ft, spec.get("shift", 0)))
     finally:
         shutil.rmtree(work, ignore_errors=True)
     json.dump(out, open(a.out, "w"))
